@@ -9,7 +9,7 @@
 (*           has = FALSE : a child without values (add_data without 'values')                      *)
 (*           vals        : value tokens  name*100 + gen*10 + position-at-assignment, or NDV        *)
 (*           rd = FALSE  : reading .values raises (only ever produced by a named deviation)        *)
-(*   cached    : FALSE right after Reopen / CopyClearCache: the next operation starts from the file *)
+(*   cached    : FALSE right after Reopen: the next operation starts from the file                  *)
 (*   twin      : the object under observation is the target of a masked Data.copy (only read back)  *)
 (*   partsRead : (curves) Curve.parts has been computed on this object since it was loaded - a pure *)
 (*               history marker: it makes the cover visit "parts read, removal, caches dropped"     *)
@@ -32,16 +32,19 @@ CONSTANTS
     Valueless,       \* TRUE: AddData may create a child without values
     CellMask,        \* TRUE: cell objects also offer copy(cell_mask=...)
     CopyClear,       \* TRUE: copy(clear_cache=True) and (curves) reading Curve.parts are offered
+    Grow,            \* GrowVertices appends 1..Grow vertices (0: not offered), in states first reached after < GrowDepth operations
+    GrowDepth,
     DataCopyDepth,   \* Data.copy(parent=twin, mask=...) is offered in states first reached after < DataCopyDepth operations
     Deviations       \* {} = the specification ; a subset of AsBuilt = geoh5py as built (negative controls)
 
 VARIABLES obj, expect, cexpect, ccoords, cached, partsRead, twin, depth, last
 
 NDV == 0 - 1
-AsBuilt == {"NoTouchRaises", "ValuelessChildBreaksRemoval", "RefusedAddLeavesChild", "EmptyValuesUnreadable"}
+AsBuilt == {"NoTouchRaises", "ValuelessChildBreaksRemoval", "RefusedAddLeavesChild", "EmptyValuesUnreadable",
+            "GrowKeepsCachedLength", "ShrinkAcceptedWhenNotLoaded"}
 
 MaxNV == CHOOSE m \in NVs : \A x \in NVs : x <= m
-Toks == 1..MaxNV
+Toks == 1..(MaxNV + Grow)      \* coordinate tokens; a token freed by a removal may be used again by a new vertex
 CIds == 1..MaxCells
 Names == 1..MaxData
 Assocs == IF Arity = 0 THEN {"VERTEX"} ELSE {"VERTEX", "CELL"}
@@ -189,6 +192,29 @@ Reopen(S, D) ==
                         IF S.data[p].has /\ Len(S.data[p].vals) = 0 THEN [S.data[p] EXCEPT !.rd = FALSE] ELSE S.data[p]]]
               ELSE S)
 
+\* points.py:87-102 vertices setter with a LONGER array whose first rows are the existing vertices
+\* (k > 0 new rows; an array with fewer rows is refused, :93-97, modelled as k = -1).
+\* Specified: existing values stay on their vertices, the new vertices carry the no-data value, every
+\* VERTEX array has one entry per vertex (live = stored = re-opened); cells keep their indices and therefore
+\* the coordinates they join.  As built (deviation GrowKeepsCachedLength) the setter does not touch the
+\* children: an array that is cached in memory keeps its old length (numeric_data.py:51-60 only pads when it
+\* fetches from the file), so only children that were not loaded yet (~wasCached) come out padded.
+NewToks(S, k) == LET F[i \in 0..k] == IF i = 0 THEN <<>>
+                                       ELSE Append(F[i-1], MinOf((Toks \ IxSet(S.verts)) \ IxSet(F[i-1])))
+                 IN F[k]
+\* As built the refusal of a shorter array compares with the cached `_vertices` only (:93): on an object
+\* whose vertices were not loaded yet it is skipped, the last vertex disappears and nothing else is adjusted
+\* (deviation ShrinkAcceptedWhenNotLoaded).
+GrowVertices(S, k, wasCached, D) ==
+    IF k < 0 THEN (IF "ShrinkAcceptedWhenNotLoaded" \in D /\ ~wasCached
+                   THEN Res("ok", [S EXCEPT !.verts = SubSeq(@, 1, Len(@) - 1)]) ELSE Res("refused", S))
+    ELSE LET n == Len(S.verts) + k IN
+         Res("ok", [S EXCEPT !.verts = @ \o NewToks(S, k),
+                             !.data = [p \in DOMAIN S.data |->
+                                         IF S.data[p].has /\ S.data[p].assoc = "VERTEX"
+                                            /\ ~("GrowKeepsCachedLength" \in D /\ wasCached)
+                                         THEN [S.data[p] EXCEPT !.vals = Pad(@, n)] ELSE S.data[p]]])
+
 \* data.py:66-117 Data.copy(parent=twin, mask=...) of ONE child onto another object with the same geometry
 \* (twin = object.copy(copy_children=False)): the target has as many elements as the source array, so the
 \* array keeps its length and what the mask leaves out becomes no-data (:104-108) - it is not sub-sampled
@@ -202,7 +228,7 @@ DataMaskedCopy(S, p, mask, D) ==
 
 \* object.copy(clear_cache=True) (workspace.py:306-308 clear_array_attributes on the source, its children
 \* and the copy): the duplicate must equal the source, and the source - which stays the object under
-\* observation - must read everything back from the file.  Same observable effect as Reopen.
+\* observation - must read everything back from the file (which the observation after the action does).
 \* Offered on curves only when ChainLike: copy() reads Curve.parts, and once the cell cache is dropped
 \* the cells getter rebuilds the cells from the cached parts (curve.py:56-66), which is the identity for
 \* chains only (see notes/C07.md "observed, not modelled").
@@ -245,6 +271,9 @@ Acts(S) ==
                         m \in DataMasks(Len(S.data[p].vals))} :
                     p \in {q \in DOMAIN S.data : S.data[q].has /\ S.data[q].name # 0 /\ Len(S.data[q].vals) > 0}})
   \cup (IF CopyClear /\ Arity = 2 /\ ~partsRead THEN {Act("ReadParts")} ELSE {})
+  \cup (IF Grow = 0 \/ depth >= GrowDepth THEN {}
+        ELSE {[Act("GrowVertices") EXCEPT !.k = k] :
+                 k \in {j \in 1..Grow : Len(S.verts) + j <= MaxNV + Grow} \cup (IF Len(S.verts) > 0 THEN {0 - 1} ELSE {})})
 
 Step(S, a, D) ==
     CASE a.act = "AddData"        -> AddData(S, a.name, a.assoc, a.k, D)
@@ -256,6 +285,7 @@ Step(S, a, D) ==
       [] a.act = "Reopen"         -> Reopen(S, D)
       [] a.act = "CopyClearCache" -> CopyClearCache(S, D)
       [] a.act = "DataMaskedCopy" -> DataMaskedCopy(S, PosOf(S, a.name), a.mask, D)
+      [] a.act = "GrowVertices"   -> GrowVertices(S, a.k, cached, D)
       [] a.act = "ReadParts"      -> Res("ok", S)          \* curve.py:128-157: computes and caches, changes nothing
 
 \* ---------------------------------------------------------------- what the harness sees
@@ -342,9 +372,15 @@ Do(a) ==
     /\ IF a.act \in {"AddData", "SetValues", "DataMaskedCopy"} /\ r.out = "ok" /\ r.st.data[PosOf(r.st, a.name)].has
        THEN /\ expect' = [expect EXCEPT ![a.name] = ExpectOf(r.st, PosOf(r.st, a.name), @)]
             /\ cexpect' = [cexpect EXCEPT ![a.name] = CExpectOf(r.st, PosOf(r.st, a.name), @)]
+       ELSE IF a.act = "GrowVertices" /\ r.out = "ok"
+       \* the new vertices (possibly on coordinates freed earlier) are expected to carry no-data
+       THEN /\ expect' = [d \in Names |-> [t \in Toks |-> IF t \in IxSet(r.st.verts) \ IxSet(obj.verts) THEN NDV ELSE expect[d][t]]]
+            /\ UNCHANGED cexpect
        ELSE UNCHANGED <<expect, cexpect>>
     /\ UNCHANGED ccoords
-    /\ cached' = (a.act \notin {"Reopen", "CopyClearCache"})
+    \* after Reopen the next operation gets a handle on which nothing was read; after every other action
+    \* (CopyClearCache included) the harness has read the whole object again
+    /\ cached' = (a.act # "Reopen")
     /\ twin' = (twin \/ (a.act = "DataMaskedCopy" /\ r.out = "ok"))
     \* a re-opened object and a fresh (masked) copy have no parts cached; copy() reads the parts of its source
     /\ partsRead' = IF Arity # 2 THEN FALSE
@@ -354,6 +390,7 @@ Do(a) ==
     /\ depth' = depth + 1
     /\ last' = [act |-> a.act, name |-> a.name, assoc |-> a.assoc, k |-> a.k, ix |-> a.ix, mask |-> a.mask, clear |-> a.clear,
                 \* the value tokens handed to add_data / the values setter (before padding)
+                verts |-> IF a.act = "GrowVertices" THEN r.st.verts ELSE <<>>,   \* the coordinate tokens assigned
                 vals |-> IF a.act = "AddData" /\ a.k >= 0 THEN NewVals(a.name, 0, a.k)
                          ELSE IF a.act = "SetValues" THEN NewVals(a.name, 1, a.k) ELSE <<>>,
                 out |-> r.out, devs |-> Devs(obj, a)]
@@ -385,7 +422,7 @@ CellValuesFollow ==
         \A i \in DOMAIN obj.cids : i <= Len(obj.data[p].vals) => obj.data[p].vals[i] = cexpect[obj.data[p].name][obj.cids[i]]
 VertsDistinct == Injective(obj.verts) /\ Injective(obj.cids) /\ Len(obj.cids) = Len(obj.cells)
 \* no operation invents vertices or cells
-OnlySurvivors == [][/\ IxSet(obj'.verts) \subseteq IxSet(obj.verts)
+OnlySurvivors == [][/\ (last'.act = "GrowVertices" \/ IxSet(obj'.verts) \subseteq IxSet(obj.verts))
                     /\ IxSet(obj'.cids) \subseteq IxSet(obj.cids)]_vars
 
 \* ---------------------------------------------------------------- export (harness/README.md)
